@@ -80,7 +80,9 @@ type Case struct {
 	Pol    Policy   `json:"pol"`
 	Reject bool     `json:"reject"`
 	Ideal  []string `json:"ideal"`
-	Model  Model    `json:"model"`
+	// IdealX32: the decisions when the same policy is compiled for arch.X32 (x86 policies only)
+	IdealX32 []string `json:"ideal_x32"`
+	Model    Model    `json:"model"`
 }
 
 type Header struct {
